@@ -46,7 +46,7 @@ class Target:
 
     def __init__(self, id, func, setup, ensures=(), raises=(), exc_ensures=(), overrides=None, field_types=None,
                  loops=None, unroll=None, classify=None, replay=None, timeout=600, prop=None, note="",
-                 max_paths=20000, bounded=None, oblig_timeout_ms=10000, exit_hook=None, cut_at=None, start_at=None):
+                 max_paths=20000, bounded=None, oblig_timeout_ms=10000, exit_hook=None, cut_at=None, start_at=None, field_invs=None):
         self.id = id
         self.func = func
         self.setup = setup
@@ -68,6 +68,7 @@ class Target:
         self.exit_hook = exit_hook
         self.cut_at = cut_at
         self.start_at = start_at
+        self.field_invs = field_invs or {}
 
     # ------------------------------------------------------------------
     def run(self):
@@ -101,7 +102,7 @@ class Target:
         used_loops = set()
 
         def run_path(ctx):
-            I = Interp(ctx, overrides=self.overrides, field_types=self.field_types, loops=self.loops, unroll=self.unroll)
+            I = Interp(ctx, overrides=self.overrides, field_types=self.field_types, loops=self.loops, unroll=self.unroll, field_invs=self.field_invs)
             I.cut_at = self.cut_at
             try:
                 env = self.setup(I)
